@@ -9,9 +9,13 @@ casts fail when characters remain; value -> string -> value is the identity for 
 ID = "C16"
 MODULE = "PotasscoVerif.Props.C16"
 THEOREMS = ["PotasscoVerif.C16.C16_roundtrip_signed", "PotasscoVerif.C16.C16_roundtrip_unsigned", "PotasscoVerif.C16.C16_decimal_exact",
-            "PotasscoVerif.C16.C16_roundtrip_bool", "PotasscoVerif.C16.C16_roundtrip_char", "PotasscoVerif.C16.strto_decimal"]
-PARTIAL = {"C16_accept_iff_fits": "proved for decimal texts and signed types (C16_decimal_exact); hexadecimal/octal texts, keywords, unsigned acceptance, pairs, lists and enumerations "
-           "are decided by the correspondence run and the big-integer oracle"}
+            "PotasscoVerif.C16.C16_roundtrip_bool", "PotasscoVerif.C16.C16_roundtrip_char", "PotasscoVerif.C16.strto_decimal",
+            "PotasscoVerif.C16.C16_hex_signed", "PotasscoVerif.C16.C16_hex_unsigned", "PotasscoVerif.C16.C16_octal_signed", "PotasscoVerif.C16.C16_octal_unsigned",
+            "PotasscoVerif.C16.C16_keyword_imax", "PotasscoVerif.C16.C16_keyword_imin", "PotasscoVerif.C16.C16_keyword_umax", "PotasscoVerif.C16.C16_keyword_minus_one",
+            "PotasscoVerif.C16.C16_unsigned_rejects_negative"]
+EXTRA_MODULES = ["PotasscoVerif.Props.C16b"]
+PARTIAL = {"C16_accept_iff_fits for composite types": "accepted-iff-it-fits is proved for decimal (signed), hexadecimal and octal (signed and unsigned) texts of any length and for the keywords; "
+           "unsigned decimal texts other than those the library writes, pairs, lists and enumerations are decided by the correspondence run, the big-integer oracle and the EnumClass reference"}
 BSIZES = (4096,)
 RULE = ("values: boundary neighbourhoods of every 32/64-bit type, powers of two and ten, random (thorough: additionally a 2^20-value stratified sweep of the 32-bit types); strings: optional sign, "
         "base prefix (0x/0X/0), digit strings of 1..40 digits incl. values around every type limit in bases 8/10/16, keywords imax/imin/umax/-1, optional trailing characters; "
@@ -21,7 +25,8 @@ ASSUMPTIONS = ["strings without leading blanks and without NUL; char 0 and the e
 TECHNIQUE = "Lean 4 theorems on the conversion model (decimal round trip for all values, accepted iff in range for digit strings of any length) + differential correspondence with xconvert + big-integer oracle"
 LEVEL_TEXT = ("C16_roundtrip_signed/_unsigned: for EVERY value of every signed/unsigned integer type within 64 bit the written text reads back as exactly that value with the end "
               "position at the end (max written as 'umax'); C16_decimal_exact: a decimal text with a digit string of ANY length is accepted for a signed type iff the denoted number "
-              "lies in the type's range, value exact, end right behind the digits; bool/char round trips. Other bases, keywords, composite types and enumerations: decided by "
+              "lies in the type's range, value exact, end right behind the digits; bool/char round trips. C16_hex_signed/_unsigned, C16_octal_signed/_unsigned (Props/C16b.lean): `0x`/`0` prefix, a digit string of ANY length in that base, then no digit of the base: accepted iff the denoted "
+              "number fits the type (numbers beyond 64 bit are refused, never wrapped), value exact, end right behind the digits; C16_keyword_*: imax, imin, umax, -1; C16_unsigned_rejects_negative. Composite types and enumerations: decided by "
               "model == xconvert on generated texts/values and by an independent big-integer oracle on the implementation (incl. a stale-errno variant).")
 LEVEL_NOTE = ("Proved about Model/StringConvert.lean with strtoll/strtoull as the written-out contract `strto`; model==code on ~12k (quick) / 300k + 2^21 stratified values (thorough). "
               "The exhaustive 2^32 sweep planned in DESIGN.md is replaced by the theorem for all values plus the stratified sweep. Trusted: Lean kernel+axioms, harness, ref_parse() oracle.")
